@@ -231,7 +231,7 @@ def audioDataBytes (format rate size type packetType : UInt8) (body : Bytes) : B
 
 /-- the AMF0 values the muxer hands to `amf.WriteAny`; a number is its IEEE-754 bit pattern -/
 inductive AmfVal where
-  | num (bits : Nat)
+  | num (bits : UInt64)
   | bool (b : Bool)
   | str (s : Bytes)
   deriving Repr, DecidableEq
@@ -242,7 +242,7 @@ def amfUtf8 (s : Bytes) : Bytes := be16 s.length ++ s
 /-- `WriteAny` for `string` (short → `WriteString`, longer than 65535 → `WriteLongString`),
     `bool` (`WriteBool`), numeric types (`WriteNumber(float64(v))`) -/
 def amfWriteAny : AmfVal → Bytes
-  | .num bits => 0x00 :: be64 bits
+  | .num bits => 0x00 :: be64 bits.toNat
   | .bool b => [0x01, if b then 1 else 0]
   | .str s => if s.length > 65535 then 0x0C :: (be32 s.length ++ s) else 0x02 :: amfUtf8 s
 
@@ -267,8 +267,8 @@ def f64OfNat (n : Nat) : Nat :=
     if e ≤ 52 then (1023 + e) * 4503599627370496 + (n - 2 ^ e) * 2 ^ (52 - e)
     else (1023 + e) * 4503599627370496 + (n - 2 ^ e) / 2 ^ (e - 52)   -- truncation; not exact beyond 2^53
 
-def f64OfInt (i : Int) : Nat :=
-  if i < 0 then 9223372036854775808 + f64OfNat i.natAbs else f64OfNat i.toNat
+def f64OfInt (i : Int) : UInt64 :=
+  UInt64.ofNat (if i < 0 then 9223372036854775808 + f64OfNat i.natAbs else f64OfNat i.toNat)
 
 /-! ## stream metadata -/
 
@@ -279,8 +279,8 @@ structure VideoMeta where
   codec : VCodec
   width : Int
   height : Int
-  frameRate : Nat
-  dataRate : Nat
+  frameRate : UInt64
+  dataRate : UInt64
   sps : Bytes
   pps : Bytes
   vps : Bytes
@@ -298,7 +298,7 @@ structure AudioMeta where
   sampleRate : Int
   sampleSize : Int
   channels : Int
-  dataRate : Nat
+  dataRate : UInt64
   asc : Bytes
   deriving Repr, DecidableEq
 
@@ -349,9 +349,9 @@ def videoSeqHeaderTag (vm : VideoMeta) : Except Fault Tag :=
 /-- `h264Packetizer.Packetize` / `h265Packetizer.Packetize`: `frame.Payload[0]` panics on an
     empty payload (before anything is written). -/
 def videoTag (codec : VCodec) (f : Frame) : Except Fault Tag :=
-  match f.payload with
-  | [] => .error .panic
-  | h :: _ =>
+  match f.payload.head? with
+  | none => .error .panic
+  | some h =>
     let dts := msOf f.dts
     let pts := msOf f.pts
     let key : Bool :=
